@@ -2,6 +2,7 @@ import Driver.Util
 import Driver.SimOps
 import Driver.LoaderOps
 import Driver.TextOps
+import Driver.PipelineOps
 /-!
 `psdriver`: one JSON request per input line, one JSON answer per output line.
 Every request has an `"op"` field; the component handlers live in `Driver/*Ops.lean`.
@@ -9,7 +10,7 @@ Answers: the handler's JSON object, or `{"error": "..."}` (protocol / decoding e
 -/
 open Lean Driver
 
-def handlers : List Handler := [SimOps.handle, LoaderOps.handle, TextOps.handle]
+def handlers : List Handler := [SimOps.handle, LoaderOps.handle, TextOps.handle, PipelineOps.handle]
 
 def dispatch (op : String) (j : Json) : List Handler → Except String Json
   | [] => .error s!"unknown op {op}"
